@@ -232,5 +232,110 @@ pub proof fn lemma_count_addr_nonneg(outs: Seq<EvaluatedTxOut>, n: int)
     if n > 0 { lemma_count_addr_nonneg(outs, n - 1); }
 }
 
+
+// ---- C07: what the maintained map IS, in the property's own words -----------------------------------------------
+pub struct TxH { pub tx: Hashed<EvaluatedTx>, pub h: u64 }
+/// the map after the first n transactions of a history (in chain order), starting from the empty map
+pub open spec fn run(txs: Seq<TxH>, n: int) -> UMap
+    decreases n
+{ if n <= 0 { Map::empty() } else { apply_tx(run(txs, n - 1), txs[n - 1].tx, txs[n - 1].h) } }
+pub open spec fn creates_at(t: TxH, i: int, k: Seq<u8>) -> bool {
+    0 <= i < t.tx.value.outputs@.len() && t.tx.value.outputs@[i].script.address is Some && key_of(t.tx.hash, i as u32) == k
+}
+/// transaction t creates an address-bearing output with outpoint key k
+pub open spec fn creates(t: TxH, k: Seq<u8>) -> bool { exists|i: int| creates_at(t, i, k) }
+pub open spec fn spends_at(t: TxH, i: int, k: Seq<u8>) -> bool {
+    0 <= i < t.tx.value.inputs@.len() && key_of(t.tx.value.inputs@[i].outpoint.txid, t.tx.value.inputs@[i].outpoint.index) == k
+}
+/// an input of transaction t references outpoint key k
+pub open spec fn spends(t: TxH, k: Seq<u8>) -> bool { exists|i: int| spends_at(t, i, k) }
+
+pub proof fn lemma_remove_all_dom(m: UMap, ins: Seq<TxInput>, n: int, k: Seq<u8>)
+    requires 0 <= n <= ins.len(),
+    ensures remove_all(m, ins, n).contains_key(k) <==>
+        (m.contains_key(k) && forall|i: int| 0 <= i < n ==> key_of(#[trigger] ins[i].outpoint.txid, ins[i].outpoint.index) != k),
+    decreases n
+{
+    if n > 0 { lemma_remove_all_dom(m, ins, n - 1, k); }
+}
+pub proof fn lemma_ins_all_dom(m: UMap, txid: sha256d::Hash, h: u64, outs: Seq<EvaluatedTxOut>, n: int, k: Seq<u8>)
+    requires 0 <= n <= outs.len(),
+    ensures ins_all(m, txid, h, outs, n).contains_key(k) <==>
+        (m.contains_key(k) || exists|i: int| 0 <= i < n && (#[trigger] outs[i]).script.address is Some && key_of(txid, i as u32) == k),
+    decreases n
+{
+    if n > 0 {
+        lemma_ins_all_dom(m, txid, h, outs, n - 1, k);
+        let p = ins_all(m, txid, h, outs, n - 1);
+        if outs[n - 1].script.address is Some && key_of(txid, (n - 1) as u32) == k {
+            assert(ins_all(m, txid, h, outs, n).contains_key(k));
+        }
+    }
+}
+/// one transaction: k is in the map afterwards iff it is created by t, or was there before and is not spent by t
+pub proof fn lemma_apply_tx_dom(m: UMap, t: TxH, k: Seq<u8>)
+    ensures apply_tx(m, t.tx, t.h).contains_key(k) <==> (creates(t, k) || (m.contains_key(k) && !spends(t, k))),
+{
+    let ins = t.tx.value.inputs@;
+    let outs = t.tx.value.outputs@;
+    let m1 = remove_all(m, ins, ins.len() as int);
+    lemma_remove_all_dom(m, ins, ins.len() as int, k);
+    lemma_ins_all_dom(m1, t.tx.hash, t.h, outs, outs.len() as int, k);
+    if creates(t, k) {
+        let i = choose|i: int| creates_at(t, i, k);
+        assert(outs[i].script.address is Some && key_of(t.tx.hash, i as u32) == k);
+    }
+    if exists|i: int| 0 <= i < outs.len() && (#[trigger] outs[i]).script.address is Some && key_of(t.tx.hash, i as u32) == k {
+        let i = choose|i: int| 0 <= i < outs.len() && (#[trigger] outs[i]).script.address is Some && key_of(t.tx.hash, i as u32) == k;
+        assert(creates_at(t, i, k));
+    }
+    if spends(t, k) {
+        let i = choose|i: int| spends_at(t, i, k);
+        assert(key_of(ins[i].outpoint.txid, ins[i].outpoint.index) == k);
+    }
+    if !(forall|i: int| 0 <= i < ins.len() ==> key_of(#[trigger] ins[i].outpoint.txid, ins[i].outpoint.index) != k) {
+        let i = choose|i: int| 0 <= i < ins.len() && key_of(#[trigger] ins[i].outpoint.txid, ins[i].outpoint.index) == k;
+        assert(spends_at(t, i, k));
+    }
+}
+/// C07: after a history, outpoint k is listed iff some transaction created it (with an address) and no LATER
+/// transaction of the history -- later in the same block included -- references it; nothing else is listed
+pub open spec fn listed(txs: Seq<TxH>, n: int, k: Seq<u8>) -> bool {
+    exists|j: int| 0 <= j < n && #[trigger] creates(txs[j], k) && forall|j2: int| j < j2 < n ==> !#[trigger] spends(txs[j2], k)
+}
+pub proof fn lemma_final_set(txs: Seq<TxH>, n: int, k: Seq<u8>)
+    requires 0 <= n <= txs.len(),
+    ensures
+        //# C07:exactly_the_unspent_address_bearing_outputs_of_the_range
+        run(txs, n).contains_key(k) <==> listed(txs, n, k),
+    decreases n
+{
+    if n > 0 {
+        lemma_final_set(txs, n - 1, k);
+        let t = txs[n - 1];
+        lemma_apply_tx_dom(run(txs, n - 1), t, k);
+        if listed(txs, n, k) {
+            let j = choose|j: int| 0 <= j < n && #[trigger] creates(txs[j], k) && forall|j2: int| j < j2 < n ==> !#[trigger] spends(txs[j2], k);
+            if j < n - 1 {
+                assert(!spends(txs[n - 1], k));
+                assert(listed(txs, n - 1, k));
+            }
+        }
+        if run(txs, n).contains_key(k) {
+            if creates(t, k) {
+                assert(creates(txs[n - 1], k));
+                assert(listed(txs, n, k));
+            } else {
+                assert(listed(txs, n - 1, k));
+                let j = choose|j: int| 0 <= j < n - 1 && #[trigger] creates(txs[j], k) && forall|j2: int| j < j2 < n - 1 ==> !#[trigger] spends(txs[j2], k);
+                assert(forall|j2: int| j < j2 < n ==> !#[trigger] spends(txs[j2], k));
+                assert(listed(txs, n, k));
+            }
+        }
+    } else {
+        assert(!run(txs, 0).contains_key(k));
+    }
+}
+
 } // verus!
 fn main() {}
